@@ -74,7 +74,29 @@ VARIANTS = {
     'ABS': [('', 1)], 'RELU': [('', 1)],
     'MAXIMUM': [('tt', 2), ('tc', 1)],
 }
+# Extended attribute variants (strides, padding, fused activations, transposed
+# operands, scalar constants ...): used at depth 1 everywhere and at depth 2 in
+# the thorough tiers ('allx').
+VARIANTS_X = {
+    'FULLY_CONNECTED': [('nokeepdims', 1)],
+    'CONV_2D': [('2x2valid_relu6', 1)],
+    'DEPTHWISE_CONV_2D': [('m2', 1)],
+    'BATCH_MATMUL': [('const_adjx', 1)],
+    'AVERAGE_POOL_2D': [('2x2valid', 1)],
+    'SOFTMAX': [('beta2', 1)],
+    'MEAN': [('nokeep', 1)],
+    'ADD': [('ts', 1)], 'MUL': [('ts', 1)],
+    'STRIDED_SLICE': [('stride2', 1)],
+}
 FIRST_VARIANT = {t: v[0] for t, v in VARIANTS.items()}
+
+
+def variants_of(t, extended=False):
+  return VARIANTS[t] + (VARIANTS_X.get(t, []) if extended else [])
+
+
+def arity(t, v):
+  return dict(variants_of(t, True))[v]
 COMMUTATIVE_TT = ('ADD', 'MUL', 'MAXIMUM')
 
 
@@ -318,6 +340,12 @@ def _b_fc(c, v, ins):
   w = c.fconst('w', [4, sh[-1]], weight=True)
   y_shape = sh[:-1] + [4]
   opt = _opt(s.FullyConnectedOptionsT, keepNumDims=True)
+  if v == 'nokeepdims':
+    opt.keepNumDims = False
+    b = c.fconst('b', [4], 'rand')
+    y = c.out([int(np.prod(sh[:-1])), 4])
+    c.g.op(BO.FULLY_CONNECTED, [x, w, b], [y], OPT.FullyConnectedOptions, opt)
+    return [y], 'DWB', w
   if v == 'bias_relu':
     opt.fusedActivationFunction = s.ActivationFunctionType.RELU
   if v in ('bias', 'bias_relu'):
@@ -336,8 +364,17 @@ def _b_conv(c, v, ins):
   if len(sh) != 4:
     return None
   k = 1 if v == '1x1' else 2
+  if v == '2x2valid_relu6' and (sh[1] < 2 or sh[2] < 2):
+    return None
   w = c.fconst('w', [4, k, k, sh[3]], weight=True)
   b = c.fconst('b', [4], 'rand')
+  if v == '2x2valid_relu6':
+    y = c.out([sh[0], sh[1] - 1, sh[2] - 1, 4])
+    opt = _opt(s.Conv2DOptionsT, strideW=1, strideH=1, dilationWFactor=1,
+               dilationHFactor=1, padding=1,  # VALID
+               fusedActivationFunction=s.ActivationFunctionType.RELU6)
+    c.g.op(BO.CONV_2D, [x, w, b], [y], OPT.Conv2DOptions, opt)
+    return [y], 'DWB', w
   y = c.out(sh[:3] + [4])
   opt = _opt(s.Conv2DOptionsT, strideW=1, strideH=1, dilationWFactor=1,
              dilationHFactor=1, padding=0)  # SAME
@@ -350,11 +387,13 @@ def _b_dw(c, v, ins):
   sh = c.g.shape(x)
   if len(sh) != 4:
     return None
-  w = c.fconst('w', [1, 1, 1, sh[3]], weight=True)
-  b = c.fconst('b', [sh[3]], 'rand')
-  y = c.out(sh)
+  mult = 2 if v == 'm2' else 1
+  w = c.fconst('w', [1, 1, 1, sh[3] * mult], weight=True)
+  b = c.fconst('b', [sh[3] * mult], 'rand')
+  y = c.out(sh[:3] + [sh[3] * mult])
   opt = _opt(s.DepthwiseConv2DOptionsT, strideW=1, strideH=1,
-             dilationWFactor=1, dilationHFactor=1, depthMultiplier=1, padding=0)
+             dilationWFactor=1, dilationHFactor=1, depthMultiplier=mult,
+             padding=0)
   c.g.op(BO.DEPTHWISE_CONV_2D, [x, w, b], [y], OPT.DepthwiseConv2DOptions, opt)
   return [y], 'DWB', w
 
@@ -393,6 +432,12 @@ def _b_bmm(c, v, ins):
   if len(sh) < 2:
     return None
   lead = [1] * (len(sh) - 2)
+  if v == 'const_adjx':
+    w = c.fconst('w', lead + [sh[-2], 4], weight=True)
+    y = c.out(sh[:-2] + [sh[-1], 4])
+    c.g.op(BO.BATCH_MATMUL, [x, w], [y], OPT.BatchMatMulOptions,
+           _opt(s.BatchMatMulOptionsT, adjX=True))
+    return [y], 'DW', w
   if v == 'const':
     w = c.fconst('w', lead + [sh[-1], 4], weight=True)
     opt = s.BatchMatMulOptionsT()
@@ -418,17 +463,20 @@ def _unary(code, ot=0, oc=None):
   def f(c, v, ins):
     x, = ins
     y = c.out(c.g.shape(x))
-    c.g.op(code, [x], [y], ot, oc() if oc else None)
+    o = oc() if oc else None
+    if v == 'beta2':
+      o.beta = 2.0
+    c.g.op(code, [x], [y], ot, o)
     return [y], 'D', None
   return f
 
 
 def _binary(code, ot, oc):
   def f(c, v, ins):
-    if v == 'tc':
+    if v in ('tc', 'ts'):
       a, = ins
       sh = c.g.shape(a)
-      b = c.fconst('c', sh[-1:], weight=True)
+      b = c.fconst('c', sh[-1:] if v == 'tc' else [1], weight=True)
     else:
       a, b = ins
       if c.g.shape(a) != c.g.shape(b):
@@ -436,7 +484,7 @@ def _binary(code, ot, oc):
       sh = c.g.shape(a)
     y = c.out(sh)
     c.g.op(code, [a, b], [y], ot, oc())
-    return [y], 'DD', (b if v == 'tc' else None)
+    return [y], 'DD', (b if v in ('tc', 'ts') else None)
   return f
 
 
@@ -467,6 +515,14 @@ def _b_avgpool(c, v, ins):
   if len(sh) != 4:
     return None
   k = 1 if v == '1x1' else 2
+  if v == '2x2valid':
+    if sh[1] < 2 or sh[2] < 2:
+      return None
+    y = c.out([sh[0], sh[1] - 1, sh[2] - 1, sh[3]])
+    c.g.op(BO.AVERAGE_POOL_2D, [x], [y], OPT.Pool2DOptions,
+           _opt(s.Pool2DOptionsT, strideW=1, strideH=1, filterWidth=2,
+                filterHeight=2, padding=1))
+    return [y], 'D', None
   y = c.out(sh)
   c.g.op(BO.AVERAGE_POOL_2D, [x], [y], OPT.Pool2DOptions,
          _opt(s.Pool2DOptionsT, strideW=1, strideH=1, filterWidth=k,
@@ -481,9 +537,13 @@ def _b_mean(c, v, ins):
   ax = c.iconst('axis', [axis])
   osh = list(sh)
   osh[axis] = 1
+  if v == 'nokeep':
+    if len(sh) < 2:
+      return None
+    osh = [d for i, d in enumerate(sh) if i != axis]
   y = c.out(osh)
   c.g.op(BO.MEAN, [x, ax], [y], OPT.ReducerOptions,
-         _opt(s.ReducerOptionsT, keepDims=True))
+         _opt(s.ReducerOptionsT, keepDims=(v != 'nokeep')))
   return [y], 'DI', None
 
 
@@ -512,13 +572,21 @@ def _b_sslice(c, v, ins):
   sh = c.g.shape(x)
   r = len(sh)
   osh = list(sh)
+  strides = [1] * r
+  end = None
   if v == 'crop':
     if sh[-1] < 2:
       return None
     osh[-1] = sh[-1] - 1
+  if v == 'stride2':
+    if sh[-1] < 2:
+      return None
+    strides[-1] = 2
+    end = list(sh)
+    osh[-1] = (sh[-1] + 1) // 2
   b = c.iconst('begin', [0] * r)
-  e = c.iconst('end', osh)
-  st = c.iconst('strides', [1] * r)
+  e = c.iconst('end', end or osh)
+  st = c.iconst('strides', strides)
   y = c.out(osh)
   c.g.op(BO.STRIDED_SLICE, [x, b, e, st], [y], OPT.StridedSliceOptions,
          s.StridedSliceOptionsT())
